@@ -30,7 +30,7 @@ _FRAME_FUNCS = ['field:Int._unpack_fixed_and_primitive_size', 'field:Int._unpack
                 'packet:Prototype.__init__', 'packet:Prototype._clone_from_pickle', 'packet:Prototype._clone_from_live_obj',
                 'C13#field:Ref._unpack_using_callable', 'field:Ref._pack_with_callable', 'field:Ref.init',
                 # evaluating a compiled expression must not keep state between calls (scratch stack is per call)
-                'deferred:exec_compiled_expr']
+                'deferred:exec_compiled_expr', 'field:Ref._lets_find_a_nice_default']
 
 _RT1 = ['ghost_clients:rt1_int_prim', 'ghost_clients:rt1_int_any', 'ghost_clients:rt1_data_fixed', 'ghost_clients:rt1_data_field',
         'ghost_clients:rt1_data_callable', 'ghost_clients:rt1_data_marker', 'ghost_clients:rt1_data_regex',
@@ -215,7 +215,8 @@ PROPERTIES = {
         functions=['field:Field.__init__', 'field:Field.init', 'field:Int.init', 'field:Data.init', 'field:Data.__init__',
                    'structural_fields:Sequence.init', 'structural_fields:Optional.init', 'packet:Packet.__init__',
                    'packet:Prototype.__init__', 'packet:Prototype._clone_from_pickle', 'packet:Prototype._clone_from_live_obj',
-                   'field:Ref.init', 'field:Bits.init', 'structural_fields:Sequence.__init__', 'structural_fields:Optional.__init__'],
+                   'field:Ref.init', 'field:Ref._lets_find_a_nice_default', 'field:Bits.init',
+                   'structural_fields:Sequence.__init__', 'structural_fields:Optional.__init__'],
         trusted_base=_COMMON_TRUST + ['copy.deepcopy returns a fresh object graph for non-primitive values',
                                       'pickle.loads(pickle.dumps(x)) is a fresh object graph sharing nothing mutable with x'],
         assumptions=['embed=True is excluded (documented as experimental)',
